@@ -226,10 +226,23 @@ def colour_options(ctx, case):
     logging.disable(logging.CRITICAL)
     from frontends.tui import arguments
     from core import util, wl, matcher
-    opts = ctx.choose([[], ['-C'], ['--no-color'], ['--color'], ['-C', '--color'], ['--color', '-C'], ['--color', '--no-color'], ['--no-color', '--color', '--supress'], ['-C', '-C']], 'options')
+    opts = ctx.choose([[], ['-C'], ['--no-color'], ['--color'], ['-C', '--color'], ['--color', '-C'], ['--color', '--no-color'], ['--no-color', '--color', '--supress'], ['-C', '-C'],
+                       # the colour option inside a cluster of single-letter flags that ends in the run / gdb marker; the program's own words decide nothing
+                       ['-Cr', 'prog'], ['-Cg', 'prog'], ['-CCr', 'prog'], ['--color', '-Cg', 'prog'], ['-C', '-r', 'prog', '--color'], ['--color', '-r', 'prog', '-C'], ['-r', 'prog', '-C'],
+                       ['--verbose', '-r', 'prog', '--no-color']], 'options')
+    forwarded = []
+    for i, o in enumerate(opts):
+        if o in ('-r', '-g') or (o.startswith('-') and not o.startswith('--') and len(o) > 2 and o[-1] in 'rg'):
+            ours = opts[:i] + (['-' + c for c in o[1:-1]] if len(o) > 2 else [])
+            opts_ours, forwarded = ours, opts[i + 1:]
+            break
+    else:
+        opts_ours = opts
     tty = ctx.choose([False, True], 'stdout_is_a_terminal')
     in_gdb = ctx.choose([False, True], 'inside_gdb')
     mode = ctx.choose([['-l', 'x.log'], ['-p']], 'mode')
+    if forwarded and in_gdb:
+        return      # a run / gdb marker inside GDB: a second mode, C19's subject
 
     class Out(io.StringIO):
         def isatty(self):
@@ -240,7 +253,7 @@ def colour_options(ctx, case):
     try:
         with contextlib.redirect_stdout(Out()), contextlib.redirect_stderr(io.StringIO()):
             try:
-                a = arguments.parse_args(['main.py'] + opts + (mode if not in_gdb else []))
+                a = arguments.parse_args(['main.py'] + opts + (mode if not in_gdb and not forwarded else []))
             except SystemExit:
                 a = None
     finally:
@@ -248,8 +261,8 @@ def colour_options(ctx, case):
     ctx.check('the options are accepted', a is not None)
     if a is None:
         return
-    off = any(o in ('-C', '--no-color') for o in opts)
-    want = False if off else (True if '--color' in opts else (tty or in_gdb))
+    off = any(o in ('-C', '--no-color') for o in opts_ours)
+    want = False if off else (True if '--color' in opts_ours else (tty or in_gdb))
     ctx.check('colour is %s for options %r (terminal: %s, inside GDB: %s)' % ('on' if want else 'off', opts, tty, in_gdb), a.show_color is want)
     try:
         util.set_color_output(a.show_color)
@@ -323,6 +336,13 @@ def render_session(ctx, case):
              '[1000.300]  -> wl_registry@2.bind(1, "wl_seat", 7, new id [unknown]@3)', '[1003.300] wl_seat@3.capabilities(3)', '[1003.400]  -> wl_display@1.sync(new id wl_callback@4)',
              '[1003.500] wl_display@1.delete_id(4)', '[1003.600] wl_nope@9.x(nil, array, fd 5, -1.5, "it\'s")', '[1003.700] wl_seat@3.name("üñí")',
              '[1003.800]  -> wl_seat@3.get_pointer(new id wl_pointer@5)', '[1003.900] wl_pointer@5.button(1, 2, 272, 1)']
+
+    # which side the log was taken on is only known from the direction of get_registry: a log that starts later is of `unknown type`
+    side = ctx.choose(['client', 'server', 'unknown'], 'side')
+    if side == 'server':
+        lines[0] = '[1000.100] wl_display@1.get_registry(new id wl_registry@2)'
+    elif side == 'unknown':
+        lines = lines[1:]
 
     class F:
         def __init__(self): self.i = 0
